@@ -19,7 +19,7 @@ type propCfg struct {
 }
 
 var commonAssumptions = []string{
-	"interleavings are explored at the granularity of synchronisation operations (mutex, channel, select, go, transport read/write); finer-grained unsynchronised interleavings are covered only by the race-detector build of C19",
+	"interleavings are explored at the granularity of synchronisation operations (mutex, channel, select, go, sync/atomic calls, transport read/write, and in Ufs every os / syscall call); finer-grained unsynchronised interleavings are covered only by the race-detector build of C19",
 	"the Go runtime, standard library and (for Ufs) the host file system run uninstrumented and are trusted",
 	"the library is compiled with go1.26.8 (needed for testing/synctest) instead of the go1.23 its go.mod names",
 	"seeded sampling, not enumeration: a clean batch is evidence, not proof",
